@@ -116,9 +116,12 @@ def validity(case, need_deterministic=False):
                 st, out = fn(case.model, case.feeds[:1])
                 if st != "ok" or R.compare_outputs(base[name][0], out[0], None) is not None:
                     return None, "model is not deterministic (random operator)"
+    case.expected_ok = {}
     if case.expected is not None:
-        # recorded outputs of the ONNX node test: keep a runtime only where it reproduces them on the recorded input
-        pass
+        # recorded outputs of the ONNX node test: an extra oracle for the runtimes that reproduce them on the original
+        for name in ("ort", "ref"):
+            if base[name] is not None:
+                case.expected_ok[name] = all(R.compare_outputs(list(case.expected), list(o), None, loose=True) is None for o in base[name])
     return base, None
 
 
@@ -261,6 +264,10 @@ def differential(ctx, case, base, plan, stats):
                     return (name, "optimized-model-fails", out, None) if want_detail else True
                 for k, (w, g) in enumerate(zip(base[name], out)):
                     d = R.compare_outputs(w, g, case.exact, loose=case.kind.startswith("lifted"))
+                    if d is None and getattr(case, "expected_ok", {}).get(name):
+                        d = R.compare_outputs(list(case.expected), list(g), None, loose=True)
+                        if d is not None:
+                            d = "recorded outputs of the node test: " + d
                     if d is not None:
                         return (name, diff_kind(d), d, k) if want_detail else True
             return None if want_detail else False
